@@ -665,7 +665,7 @@ impl MetricValueKind {
             DataType::Boolean => MetricValueKind::Boolean(bool::try_from(value)?),
             DataType::String => MetricValueKind::String(String::try_from(value)?),
             DataType::DateTime => MetricValueKind::DateTime(DateTime::try_from(value)?),
-            DataType::Text => MetricValueKind::String(String::try_from(value)?),
+            DataType::Text => MetricValueKind::Text(String::try_from(value)?),
             DataType::Uuid => MetricValueKind::Uuid(String::try_from(value)?),
             DataType::DataSet => {
                 if let payload::metric::Value::DatasetValue(ds) = value.0 {
